@@ -3,6 +3,7 @@
 package c14
 
 import (
+	"crypto"
 	"crypto/sha256"
 	"fmt"
 	"time"
@@ -119,25 +120,41 @@ func without(exts []pki.Ext, label string) []pki.Ext {
 	return out
 }
 
+// det re-signs a certificate built by ref/pki with a deterministic (RFC 6979)
+// ECDSA signature, so that certificate lengths – and with them the number of
+// truncations and bit flips enumerated – are the same in every run.
+func det(c *pki.Cert) *pki.Cert {
+	alg := c.Signer.SigAlgDER()
+	tbs := c.T.TBS(alg)
+	h := sha256.Sum256(tbs)
+	sig, err := c.Signer.Priv.Sign(nil, h[:], crypto.SHA256)
+	if err != nil {
+		panic(err)
+	}
+	d := *c
+	d.TBS, d.DER = tbs, pki.Assemble(tbs, alg, sig)
+	return &d
+}
+
 func init() {
-	rootA = pki.NewRoot("C14 Root A", pki.LoadKey("p256-0"))
-	rootB = pki.NewRoot("C14 Root B", pki.LoadKey("p256-1"))
-	i1 := pki.NewCA("C14 I1", pki.LoadKey("p256-2"), rootA, pki.CAOpts{})
-	i2 := pki.NewCA("C14 I2", pki.LoadKey("p256-3"), i1, pki.CAOpts{})
-	i3 := pki.NewCA("C14 I3", pki.LoadKey("p256-4"), i2, pki.CAOpts{})
-	i4 := pki.NewCA("C14 I4", pki.LoadKey("p256-5"), rootB, pki.CAOpts{})
-	pi := pki.NewCA("C14 PreIssuer", pki.LoadKey("p256-6"), i1, pki.CAOpts{EKUs: [][]int{pki.OIDEKUCT}})
+	rootA = det(pki.NewRoot("C14 Root A", pki.LoadKey("p256-0")))
+	rootB = det(pki.NewRoot("C14 Root B", pki.LoadKey("p256-1")))
+	i1 := det(pki.NewCA("C14 I1", pki.LoadKey("p256-2"), rootA, pki.CAOpts{}))
+	i2 := det(pki.NewCA("C14 I2", pki.LoadKey("p256-3"), i1, pki.CAOpts{}))
+	i3 := det(pki.NewCA("C14 I3", pki.LoadKey("p256-4"), i2, pki.CAOpts{}))
+	i4 := det(pki.NewCA("C14 I4", pki.LoadKey("p256-5"), rootB, pki.CAOpts{}))
+	pi := det(pki.NewCA("C14 PreIssuer", pki.LoadKey("p256-6"), i1, pki.CAOpts{EKUs: [][]int{pki.OIDEKUCT}}))
 	lk := pki.LoadKey("p256-7")
 	// a self-signed precertificate (poison) that is itself a trusted root
 	skh := pki.LoadKey("p256-8").KeyHash()
-	rootP = pki.Build(pki.Tmpl{Serial: []byte{0x77}, Issuer: pki.CN("C14 Root P"), Subject: pki.CN("C14 Root P"), NotBefore: pki.T0, NotAfter: pki.T1,
-		Key: pki.LoadKey("p256-8"), Exts: []pki.Ext{pki.ExtBasicConstraints(true, true), pki.ExtKeyUsage(0x06, 1), pki.ExtSKI(skh[:20]), pki.ExtPoison()}}, pki.LoadKey("p256-8"))
+	rootP = det(pki.Build(pki.Tmpl{Serial: []byte{0x77}, Issuer: pki.CN("C14 Root P"), Subject: pki.CN("C14 Root P"), NotBefore: pki.T0, NotAfter: pki.T1,
+		Key: pki.LoadKey("p256-8"), Exts: []pki.Ext{pki.ExtBasicConstraints(true, true), pki.ExtKeyUsage(0x06, 1), pki.ExtSKI(skh[:20]), pki.ExtPoison()}}, pki.LoadKey("p256-8")))
 	roots = [][]byte{rootA.DER, rootB.DER, rootP.DER}
 
-	leaf := func(cn string, parent *pki.Cert) *pki.Cert { return pki.NewLeaf(cn, lk, parent, pki.LeafOpts{}) }
+	leaf := func(cn string, parent *pki.Cert) *pki.Cert { return det(pki.NewLeaf(cn, lk, parent, pki.LeafOpts{})) }
 	pre := func(cn string, parent *pki.Cert) *pki.Cert {
 		aki := parent.T.Key.KeyHash()
-		return pki.NewLeaf(cn, lk, parent, pki.LeafOpts{Exts: []pki.Ext{pki.ExtSAN(cn + ".example"), pki.ExtAKI(aki[:20]), pki.ExtPoison()}})
+		return det(pki.NewLeaf(cn, lk, parent, pki.LeafOpts{Exts: []pki.Ext{pki.ExtSAN(cn + ".example"), pki.ExtAKI(aki[:20]), pki.ExtPoison()}}))
 	}
 	path := func(c *pki.Cert) []*pki.Cert {
 		var p []*pki.Cert
